@@ -267,7 +267,7 @@ def tyexpr(s: Sp) -> str:
     raise ValueError(k)
 
 
-def _field_rhs(f: F, kind: str) -> str:
+def _field_md(f: F) -> list:
     md = []
     if f.alias is not None:
         md.append(f"alias({f.alias!r}, override=False)" if f.no_override else f"alias({f.alias!r})")
@@ -304,6 +304,11 @@ def _field_rhs(f: F, kind: str) -> str:
         md.append("validators(" + ", ".join(f.validators) + ")")
     if f.conversion:
         md.append(f.conversion)
+    return md
+
+
+def _field_rhs(f: F, kind: str) -> str:
+    md = _field_md(f)
     args = []
     if f.has_default:
         tag, expr = f.default
@@ -313,8 +318,8 @@ def _field_rhs(f: F, kind: str) -> str:
     if md:
         args.append("metadata=" + " | ".join(md))
     if kind != "dataclass":
-        if md or not f.init:
-            raise ValueError("metadata only on dataclass fields")
+        if not f.init:
+            raise ValueError("init=False only on dataclass fields")
         if f.has_default:
             assert f.default[0] == "v"
             return " = " + f.default[1]
@@ -370,6 +375,8 @@ def source(root: Sp, extra_src: str = "") -> str:
                 lines.append("    pass")
             for f in d.a:
                 te = f.texpr or tyexpr(f.sp)
+                if kind != "dataclass" and _field_md(f):
+                    te = f"Annotated[{te}, {' | '.join(_field_md(f))}]"
                 if f.initvar:
                     te = f"InitVar[{te}]"
                 lines.append(f"    {f.name}: {te}{_field_rhs(f, kind)}")
